@@ -188,8 +188,10 @@ impl World for C09World {
     fn generate(seed: u64, _index: u64, _tier: Tier) -> Self {
         let mut r = Rng::stream(seed, "workload");
         let g = 8 + r.below(8) as i64;
-        let mut a = geom::gen_rect_operand(&mut r, g, 4);
-        let mut b = geom::gen_rect_operand(&mut r, g, 4);
+        // calibration aid only (never set by a registered check): the inexact lattice-star family
+        let stars = std::env::var("VERIF_C09_FAMILY").map(|v| v == "stars").unwrap_or(false);
+        let mut a = if stars { geom::gen_valid_star_operand(&mut r, g) } else { geom::gen_rect_operand(&mut r, g, 4) };
+        let mut b = if stars { geom::gen_valid_star_operand(&mut r, g) } else { geom::gen_rect_operand(&mut r, g, 4) };
         let sides = ["left", "right", "below", "above"];
         let kind = r.below(10);
         let tag;
@@ -242,6 +244,15 @@ impl World for C09World {
         a = geom::scale(&geom::translate(&a, dx, dy), s);
         b = geom::scale(&geom::translate(&b, dx, dy), s);
         let f32_ = f32_ && geom::fits_f32(&a) && geom::fits_f32(&b);
+        if stars && !(geom::valid_simple_parts(&a) && geom::valid_simple_parts(&b)) {
+            // a far part landed on another part, or the scale made coordinates fractional: undo scale, else use a trivially valid pair
+            a = geom::scale(&a, 1.0 / s);
+            b = geom::scale(&b, 1.0 / s);
+            if !(geom::valid_simple_parts(&a) && geom::valid_simple_parts(&b)) {
+                a = vec![vec![vec![[0.0, 0.0], [3.0, 0.0], [0.0, 3.0], [0.0, 0.0]]]];
+                b = vec![vec![vec![[1.0, 1.0], [4.0, 1.0], [1.0, 4.0], [1.0, 1.0]]]];
+            }
+        }
         let mut ops: Vec<u8> = (0..4).filter(|_| r.chance(3, 4)).collect();
         if ops.is_empty() {
             ops.push(r.below(4) as u8);
